@@ -2,6 +2,7 @@ package main
 
 import (
 	"golang.org/x/tools/go/ssa"
+	"strings"
 )
 
 // checkResultsOnlyOnSuccess: in every top-level function of the packages, a value
@@ -26,11 +27,21 @@ func checkResultsOnlyOnSuccess(c *Check, rule string, rels ...string) int {
 					if nr < 2 || !isErrorType(sig.Results().At(nr-1).Type()) {
 						continue
 					}
+					// io-style calls report a meaningful count together with the error
+					if o := calleeObj(&g.Call); o != nil {
+						switch o.Name() {
+						case "Read", "Write", "ReadFull", "ReadAtLeast", "ReadFrom", "WriteTo", "Copy", "CopyN", "ReadAt", "WriteAt", "WriteString":
+							continue
+						}
+					}
+					if strings.HasSuffix(p.Pos(f.Pos()), "testing.go") || strings.Contains(p.Pos(f.Pos()), "/testing.go:") {
+						continue // test support code compiled into the package
+					}
 					errV := errOfCall(g)
 					for _, r := range returnsOf(f) {
 						uses, delegates := false, false
 						for _, rv := range r.Results {
-							sl := backSlice(rv, SliceOpt{})
+							sl := backSlice(rv, SliceOpt{CallArgs: true, PhiControl: true})
 							if isErrorType(rv.Type()) {
 								if sl.Vals[errV] || sl.Vals[g] {
 									delegates = true
@@ -38,7 +49,7 @@ func checkResultsOnlyOnSuccess(c *Check, rule string, rels ...string) int {
 								continue
 							}
 							// the value itself (not something computed from it by another call)
-							if g2, idx := resolveCallThroughLocals(rv); g2 == g && idx < nr-1 {
+							if g2, idx := resolveSingleDef(rv); g2 == g && idx < nr-1 {
 								uses = true
 							}
 						}
@@ -61,4 +72,40 @@ func checkResultsOnlyOnSuccess(c *Check, rule string, rels ...string) int {
 		}
 	}
 	return n
+}
+
+// resolveSingleDef: like resolveCallThroughLocals, but a local that is assigned
+// more than once is not resolved (the value of a failed call may have been replaced).
+func resolveSingleDef(v ssa.Value) (*ssa.Call, int) {
+	for depth := 0; depth < 6; depth++ {
+		if g, idx := resolveCall(v); g != nil {
+			return g, idx
+		}
+		u, ok := v.(*ssa.UnOp)
+		if !ok {
+			return nil, 0
+		}
+		al, ok := u.X.(*ssa.Alloc)
+		if !ok {
+			return nil, 0
+		}
+		var st *ssa.Store
+		cnt := 0
+		for _, r := range *al.Referrers() {
+			switch x := r.(type) {
+			case *ssa.Store:
+				if x.Addr == ssa.Value(al) {
+					st = x
+					cnt++
+				}
+			case *ssa.FieldAddr, *ssa.IndexAddr:
+				cnt += 2 // partially written: not a single definition
+			}
+		}
+		if cnt != 1 || st == nil {
+			return nil, 0
+		}
+		v = st.Val
+	}
+	return nil, 0
 }
